@@ -491,3 +491,23 @@ def library_deps_acyclic(netlist):
         state[n] = 2
         return True
     return all(visit(n) for n in dep)
+
+
+def hierarchy_acyclic(defs):
+    """no definition (transitively) instantiates itself"""
+    state = {}
+
+    def visit(D):
+        s = state.get(id(D))
+        if s == 1:
+            return False
+        if s == 2:
+            return True
+        state[id(D)] = 1
+        for I in D.children:
+            R = I.reference
+            if R is not None and not visit(R):
+                return False
+        state[id(D)] = 2
+        return True
+    return all(visit(D) for D in defs)
